@@ -129,10 +129,22 @@ def _judge(case):
                 if list(src_c.lines) != before:
                     bad(f'{how}-shares-lines-with-original', f'{src_c.lines!r}')
         # render, change the comment through every mutator, render again: the new text must show
-        for how in ('trim', 'lines-setter', 'lines-extend', 'iadd', 'set_indentor'):
+        for how in ('trim', 'lines-setter', 'lines-extend', 'iadd', 'set_indentor', 'indent', 'indent-append',
+                    'indent-iadd', 'indent-lines-extend', 'indent-twice-append'):
             cm2 = Comment(R.build(enc, TextBlock))
             str(cm2)
-            if how == 'trim':
+            if how.startswith('indent'):
+                # indent() applied IN PLACE (the lines themselves get the comment prefix), then extended
+                cm2.indent()
+                if how == 'indent-twice-append':
+                    cm2.indent()
+                if how.endswith('append'):
+                    cm2.append('after indent\n\nlast')
+                elif how == 'indent-iadd':
+                    cm2 += ['after indent', '']
+                elif how == 'indent-lines-extend':
+                    cm2.lines.extend(['after indent'])
+            elif how == 'trim':
                 cm2.trim()
                 want = None if R.trim_ok(before, cm2.lines) else 'bad-trim'
             elif how == 'lines-setter':
